@@ -2,10 +2,11 @@ HOOK_COMMITS = []
 NOT_APPLICABLE_REASON = {}
 ENGINES = [
  {"name": "dlmc", "path": "dlmc/", "serves_properties": ["C01", "C02"], "kind_free_text": "bounded-exhaustive Datalog program/database/configuration enumeration against a naive reference evaluator (python), batched runner"},
- {"name": "vsched", "path": "vsched/", "serves_properties": ["C25", "C27", "C29", "C30"], "kind_free_text": "serialising scheduler + preemption-bounded stateless DFS over the real C++ headers; hooks = compiler TSan instrumentation linked against vsched's own __tsan_*/pthread_*/omp_* definitions (no source changes)"},
+ {"name": "vsched", "path": "vsched/", "serves_properties": ["C25", "C26", "C27", "C28", "C29", "C30", "C31"], "kind_free_text": "serialising scheduler + preemption-bounded stateless DFS over the real C++ headers; hooks = compiler TSan instrumentation linked against vsched's own __tsan_*/pthread_*/omp_* definitions (no source changes)"},
 ]
 _DL = "the reference evaluator dlmc/ref.py + dlmc/vals.py defines the expected model (independent naive implementation); bounds as stated in the evidence file; cases whose reference evaluation leaves the defined value domain are skipped and counted"
 _VS = "sequentially consistent executions only (no weak-memory reorderings); compare_exchange_weak never fails spuriously; instrumented code compiled at -O1; at most 3 virtual threads; bounds as reported in the evidence file"
+_SEQ = "explicit-state BFS over operation histories replayed on fresh real objects; states deduplicated by a canonical dump of the whole representation; bounds (depth, key alphabet) as reported"
 CHECKS = {
  "C01": {"engine": "dlmc", "category": "exploration", "technique": "bounded-exhaustive enumeration of programs x databases vs reference model",
          "text": "Every rule shape of each family up to its size bound is run on every database of a tiny-domain enumeration in the interpreter and compared, relation by relation, with an independent naive stratified evaluator; covers all shapes below the bound rather than the handful a test samples.",
@@ -24,5 +25,14 @@ CHECKS = {
          "note": _VS},
  "C30": {"engine": "vsched", "category": "model_checking", "technique": "stateless model checking (preemption-bounded DFS) of the real OptimisticReadWriteLock with ghost state",
          "text": "All schedules with at most 2-4 preemptions of every mix of 2-3 clients running read/validate, write, try-write, upgrade, write-abort, upgrade-abort on the real lock; ghost data detects two writers, torn validated reads, lost version restoration, deadlock and livelock.",
+         "note": _VS},
+ "C26": {"engine": "vsched", "category": "model_checking", "technique": "explicit-state BFS over all insert/erase histories (state = tree shape) + stateless model checking of concurrent inserts",
+         "text": "Every insert/erase/iterator-erase history over small key sets on the real deletable B-tree (3-key nodes; reachable shape space closed where finite) with the full query battery in every state; concurrent insertion as in C25.",
+         "note": _SEQ + "; " + _VS},
+ "C28": {"engine": "vsched", "category": "model_checking", "technique": "explicit-state BFS over all insert/insertAll/extendAndInsert/query histories + stateless model checking of concurrent inserts",
+         "text": "Every history (depth 3-6) of pair insertions, bulk merges, extend-and-insert and query batteries over elements including the 32-bit extremes on the real EquivalenceRelation, state = forest + cache + stale flag, closure model compared on size, all iteration forms, partitions; plus all schedules up to the preemption bound of concurrent inserts.",
+         "note": _SEQ + "; " + _VS},
+ "C31": {"engine": "vsched", "category": "model_checking", "technique": "stateless model checking (preemption-bounded DFS) of the real ConcurrentFlyweight / SymbolTableImpl / RecordTable",
+         "text": "All schedules with at most 2-4 preemptions of concurrent findOrInsert/encode/pack histories with duplicates on tiny-capacity tables with a one-bucket hash (slot growth, bucket growth, bucket CAS and the lane lock-all protocol collide); bijection, fetch/decode/unpack, exactly-once insertion, nil never returned, iteration complete.",
          "note": _VS},
 }
